@@ -1,5 +1,6 @@
 \* C14, theorems only, plain small integers with MAX = 19 (H = 9): sums of small costs saturate.
 \* Not replayed (a 64-bit MAX cannot be reached by a bounded tree of small costs).
+\* Measured: 253 trees, 27,097 inputs, 54,447 distinct states; ~10-25 s.
 CONSTANTS
   MaxH = 0
   MaxD = 19
